@@ -197,8 +197,16 @@ func (b *Broker) message(ctx context.Context) map[string][]Message {
 			select {
 			case <-ctx.Done():
 				verifPoint("poll.timeout", id)
-				go b.doHeartBeat(context.Background(), id)
-				return map[string][]Message{}
+				// withdraw the responder, otherwise the next accepted message
+				// would be handed to this abandoned poll and lost
+				if b.responders.RemoveCb(id, func(_ string, v interface{}, exists bool) bool {
+					return exists && v == interface{}(responder)
+				}) {
+					go b.doHeartBeat(context.Background(), id)
+					return map[string][]Message{}
+				}
+				// already taken by a publisher or a newer poll: the answer is on its way
+				return <-responder
 			case result := <-responder:
 				return result
 			}
